@@ -3,7 +3,7 @@
    parameter, instantiated by the sheet models of the other properties).  Partial by nature: the
    runtime state that could break purity (the zip archive's cursor and caches) is not in the
    model; it is exercised by the metamorphic correspondence run only. *)
-From Calamine Require Import Prelude Range Range_spec HeaderRow Reader Reader_proofs.
+From Calamine Require Import Prelude Range Range_spec HeaderRow Reader Reader_proofs ReaderCache ReaderCache_proofs.
 Open Scope N_scope.
 
 Theorem C07_history_pure :
@@ -72,6 +72,46 @@ Example C07_history_nonvacuous :
   = [Some 5; None; Some 0; Some 15; None; Some 5].
 Proof. reflexivity. Qed.
 
+(* ---- the xlsx reader's lazily filled caches (merged regions, tables) as reader state ---- *)
+
+(* The answer of a call made after ANY history is the specified one (kspec): a cache-free call
+   answers as the file does under the header-row option in force; a cache-reading call answers
+   with the FILE's table — never with anything an earlier call left behind — once a load call
+   was made, and panics (the documented .expect) otherwise; a load call succeeds exactly when the
+   file's part is readable. *)
+Theorem C07_cache_history_pure :
+  forall (Name Call MR TB Result : Type) (file_merged : option MR) (file_tables : option TB)
+         (sem : header_row -> Call -> Result) (ops : list (kop Name Call)) (o : kop Name Call),
+    snd (krun file_merged file_tables sem (kinit MR TB) (ops ++ [o])) =
+    snd (krun file_merged file_tables sem (kinit MR TB) ops) ++ [kspec file_merged file_tables sem ops o].
+Proof. exact cache_history_pure. Qed.
+
+Theorem C07_cache_holds_file_table :
+  forall (Name Call MR TB Result : Type) (file_merged : option MR) (file_tables : option TB)
+         (sem : header_row -> Call -> Result) (ops : list (kop Name Call)),
+    let s := fst (krun file_merged file_tables sem (kinit MR TB) ops) in
+    (k_merged s = None \/ k_merged s = file_merged) /\
+    (k_tables s = None \/ k_tables s = file_tables).
+Proof. exact cache_holds_file_table. Qed.
+
+Theorem C07_only_loads_fill :
+  forall (Name Call MR TB Result : Type) (file_merged : option MR) (file_tables : option TB)
+         (sem : header_row -> Call -> Result) (ops : list (kop Name Call)) (o : kop Name Call),
+    is_load_merged o = false ->
+    k_merged (fst (krun file_merged file_tables sem (kinit MR TB) (ops ++ [o]))) =
+    k_merged (fst (krun file_merged file_tables sem (kinit MR TB) ops)).
+Proof. exact only_loads_fill. Qed.
+
+(* non-vacuity: a per-sheet read between two bulk reads changes nothing; an unloaded cache panics *)
+Example C07_cache_nonvacuous :
+  let sem := fun (h : header_row) (c : N) => match h with HRow n => n + c | _ => c end in
+  snd (krun (Some [7; 8]) (@None (list N)) sem (kinit (list N) (list N))
+         [KMergedAll; KOther 3; KLoadMerged; KOther 4; KMergedBy (5 : N); KSetHeader (HRow 10);
+          KLoadTables; KTableNames; KOther 1; KLoadMerged; KMergedAll])
+  = [APanic; AResult 3; ALoaded true; AResult 4; AMergedBy [7; 8] 5; ANone;
+     ALoaded false; APanic; AResult 11; ALoaded true; AMerged [7; 8]].
+Proof. reflexivity. Qed.
+
 Check C07_history_pure :
   forall (Name Result : Type) (sem : header_row -> call Name -> Result)
          (ops : list (op Name)) (c : call Name),
@@ -85,3 +125,6 @@ Print Assumptions C07_option_reversible.
 Print Assumptions C07_owned_is_ref_mapped.
 Print Assumptions C07_range_at_is_nth_name.
 Print Assumptions C07_unknown_name_is_error.
+Print Assumptions C07_cache_history_pure.
+Print Assumptions C07_cache_holds_file_table.
+Print Assumptions C07_only_loads_fill.
